@@ -143,6 +143,11 @@ def shards(tier, seed):
                     out.append({'cfg': list(cfg), 'root': [a, b]})
         else:
             out.append({'cfg': list(cfg), 'root': []})
+    # sources stored as single precision / integers / booleans: every draw of every routine
+    for routine in ('bootstrap_sample', 'bootstrap_sample_rdm', 'bootstrap_sample_pattern'):
+        for dt in DTYPES:
+            out.append({'dtype_cfg': [routine, dt]})
+    out.append({'direct': 'all'})
     return out
 
 
@@ -291,7 +296,116 @@ def _judge(cfg, obs, ctx, case):
     ctx.outcome((tuple(rids), tuple(cids)))
 
 
+# ----------------------------------------------------------------------------- stored dtypes
+DTYPES = ['float32', 'int64', 'int16', 'bool']
+
+
+def _dtype_source(dtype):
+    """2 RDMs x 3 conditions stored with the given dtype (binary category-model RDMs, counts, single precision)"""
+    from rsatoolbox.rdm import RDMs
+    v = np.array([[1.0, 2.0, 3.0], [11.0, 12.0, 14.0]])
+    if dtype == 'bool':
+        v = np.array([[1.0, 0.0, 1.0], [0.0, 1.0, 1.0]])
+    return RDMs(v.astype(dtype), rdm_descriptors={'rid': [0, 1]}, pattern_descriptors={'cid': [0, 1, 2]})
+
+
+def _dtype_exec(dcfg, env):
+    from rsatoolbox.inference import bootstrap as B
+    routine, dtype = dcfg
+    rdms = _dtype_source(dtype)
+    with rngenv.installed(rngenv.RngEnv(env)):
+        out = getattr(B, routine)(rdms)
+    return {'sample': out[0], 'source': _dtype_source(dtype)}
+
+
+def _dtype_judge(dcfg, obs, ctx, case):
+    """every entry of the sample is the source's value for that (RDM, condition pair) as a NUMBER; entries
+    between two copies of one condition are missing (NaN), whatever type the source is stored in"""
+    sig = '%s|stored-dtype=%s' % dcfg
+    src = obs['source'].get_matrices().astype(float)
+    smp = obs['sample']
+    rid = [int(r) for r in smp.rdm_descriptors['rid']]
+    cid = [int(c) for c in smp.pattern_descriptors['cid']]
+    got = np.asarray(smp.get_matrices(), dtype=float)
+    want = np.zeros((len(rid), len(cid), len(cid)))
+    for a, r in enumerate(rid):
+        for i, ci in enumerate(cid):
+            for j, cj in enumerate(cid):
+                want[a, i, j] = 0.0 if i == j else (np.nan if ci == cj else src[r, ci, cj])
+    if got.shape != want.shape or not np.array_equal(got, want, equal_nan=True):
+        ctx.fail(sig + '|entries', case, 'sample holds RDMs %r conditions %r with matrices %r, the source gives %r' % (
+            rid, cid, got.tolist(), want.tolist()))
+    ctx.outcome((dcfg[1], tuple(rid), tuple(cid)))
+
+
+# ----------------------------------------------------------------------------- direct selection calls
+LABELS = {'int': [3, 1, 2, 1, 3], 'float': [0.5, -1.0, 2.0, -1.0, 0.5],
+          # string labels some of which are made of the characters of others
+          'str': ['ab', 'a', 'b', 'a', 'ab'], 'word': ['face', 'f', 'ace', 'f', 'face']}
+FORMS = ['bare', 'numpy-scalar', 'list', 'tuple', 'ndarray']
+
+
+def _direct(ctx, only=None):
+    """RDMs.subsample / subsample_pattern called directly (the outputs the statement names): a single group given
+    as a bare value, numpy scalar, one-element list / tuple / array - the sample holds exactly the RDMs / conditions
+    carrying that label, each once, with their own values; and two-element requests with a repeated group"""
+    for op in ('subsample', 'subsample_pattern'):
+        for lk, labels in LABELS.items():
+            n = len(labels)
+            for form in FORMS:
+                for pick in sorted(set(labels), key=str) + ['twice']:
+                    case = {'direct': op, 'labels': lk, 'form': form, 'pick': pick}
+                    if only is not None and only != case:
+                        continue
+                    if pick == 'twice' and form in ('bare', 'numpy-scalar'):
+                        continue
+                    ctx.case(case)
+                    sig = '%s|direct,labels=%s,value=%s' % (op, lk, form if pick != 'twice' else form + ',repeated')
+                    with ctx.guard(sig, case):
+                        if op == 'subsample':
+                            o = selfdesc.build(list(range(n)), [0, 1, 2], rdm_desc=('rid',), pat_desc=('cid',))
+                            o.rdm_descriptors['lab'] = list(labels)
+                        else:
+                            o = selfdesc.build([0, 1], list(range(n)), rdm_desc=('rid',), pat_desc=('cid',))
+                            o.pattern_descriptors['lab'] = list(labels)
+                        vals = [labels[0], labels[0]] if pick == 'twice' else [pick]
+                        if form == 'bare':
+                            value = vals[0]
+                        elif form == 'numpy-scalar':
+                            value = np.array(vals)[0]
+                        elif form == 'list':
+                            value = list(vals)
+                        elif form == 'tuple':
+                            value = tuple(vals)
+                        else:
+                            value = np.array(vals)
+                        smp = getattr(o, op)('lab', value)
+                        rids, cids = selfdesc.read_ids(smp)
+                        want = sorted(i for v in vals for i in range(n) if labels[i] == v)
+                        got = rids if op == 'subsample' else cids
+                        if sorted(got) != want:
+                            ctx.fail(sig + '|selection', case, '%s(\'lab\', %r) with labels %r holds %s %r, the request '
+                                     'names %r' % (op, value, labels, 'RDMs' if op == 'subsample' else 'conditions', got, want))
+                            continue
+                        for kind, msg in selfdesc.verify(smp, rdm_desc=('rid',), pat_desc=('cid',)):
+                            ctx.fail(sig + '|' + kind, case, msg)
+                        ctx.outcome((op, lk, form, str(pick), tuple(got)))
+
+
 def run_shard(shard, ctx):
+    if 'direct' in shard:
+        return _direct(ctx)
+    if 'dtype_cfg' in shard:
+        dcfg = tuple(shard['dtype_cfg'])
+        stats = choice.Stats()
+        for env, obs in choice.explore(lambda e: _dtype_exec(dcfg, e), bound=None, stats=stats):
+            case = {'dtype_cfg': list(dcfg), 'choices': env.choices}
+            ctx.case(case, nontrivial=env.deviations > 0)
+            with ctx.guard('%s|stored-dtype=%s' % dcfg, case):
+                _dtype_judge(dcfg, obs, ctx, case)
+        ctx.states += stats.states
+        ctx.transitions += stats.transitions
+        return
     cfg = tuple(shard['cfg'])
     stats = choice.Stats()
     key = '|'.join(map(str, cfg))
@@ -326,6 +440,15 @@ def run_shard(shard, ctx):
 
 
 def run_case(case, ctx):
+    if 'direct' in case:
+        return _direct(ctx, only=case)
+    if 'dtype_cfg' in case:
+        dcfg = tuple(case['dtype_cfg'])
+        obs = _dtype_exec(dcfg, choice.Env(case['choices']))
+        ctx.case(case)
+        with ctx.guard('%s|stored-dtype=%s' % dcfg, case):
+            _dtype_judge(dcfg, obs, ctx, case)
+        return
     cfg = tuple(case['cfg'])
     env = choice.Env(case['choices'])
     obs = _execute(cfg, env)
